@@ -192,6 +192,15 @@ class _RFile:
         self.pos = 0
 
     def read(self, n: int = -1) -> Any:
+        if is_sym(n):
+            # a symbolic size (a length taken from the file itself): everything that is left when it reaches the end of the file
+            # (one case, whatever its magnitude), else one case per smaller value
+            left = len(self.items) - self.pos
+            if n >= left:
+                n = left
+            else:
+                from fjv.pysym import int_of
+                n = int_of(n)
         if n is None or n < 0:
             rest = self.items[self.pos:]
             self.pos = len(self.items)
